@@ -314,6 +314,7 @@ func (w *world) templates(xauthFriend, xauthOther []byte) []*tmpl {
 		add(name, "block", pl, fs...)
 	}
 	blk("block", w.n1)
+	blk("block-known", w.blocks[prefixLen-1]) // the node's own tip sent again
 
 	pl, fs := cmpct(w.n1c, []int{0})
 	add("cmpctblock-full", "cmpctblock", pl, fs...)
